@@ -1295,17 +1295,35 @@ func EvalReduceFn(reduceFn ast.ApplyFn, rows []ast.ConstSubstList) (ast.Constant
 		}
 		return ast.Number(int64(numDistinct)), nil
 	case symbols.Avg.Symbol:
-		v := reduceFn.Args[0].(ast.Variable)
+		v, err := reducedVariable(reduceFn)
+		if err != nil {
+			return ast.Constant{}, err
+		}
 		return evalAvg(rowsIter(v))
 
 	case symbols.Max.Symbol, symbols.FloatMax.Symbol, symbols.DurationMax.Symbol, symbols.TimeMax.Symbol,
 		symbols.Min.Symbol, symbols.FloatMin.Symbol, symbols.DurationMin.Symbol, symbols.TimeMin.Symbol,
 		symbols.Sum.Symbol, symbols.FloatSum.Symbol, symbols.DurationSum.Symbol:
-		v := reduceFn.Args[0].(ast.Variable)
+		v, err := reducedVariable(reduceFn)
+		if err != nil {
+			return ast.Constant{}, err
+		}
 		return listReducers[reduceFn.Function.Symbol](rowsIter(v))
 	default:
 		return ast.Constant{}, fmt.Errorf("unknown reducer %v", reduceFn.Function)
 	}
+}
+
+// reducedVariable returns the variable a one-argument reducer ranges over.
+func reducedVariable(reduceFn ast.ApplyFn) (ast.Variable, error) {
+	if len(reduceFn.Args) != 1 {
+		return ast.Variable{}, fmt.Errorf("%v expects one argument", reduceFn.Function.Symbol)
+	}
+	v, ok := reduceFn.Args[0].(ast.Variable)
+	if !ok {
+		return ast.Variable{}, fmt.Errorf("%v expects a variable, got %v", reduceFn.Function.Symbol, reduceFn.Args[0])
+	}
+	return v, nil
 }
 
 // EvalAtom returns an atom with any apply-expressions evaluated.
